@@ -10,7 +10,12 @@ judged by an oracle that does not use the parsers under test:
 * an exception is always an acceptable outcome;
 * a returned list is acceptable only if every molecule k has exactly the atom / bond counts that the k-th
   header of T' literally declares and is either equal, field by field, to the molecule of T that the k-th
-  record of T' was made from, or equal to what the (structurally complete) record of T' literally states;
+  record of T' was made from, or equal to what the (structurally complete) record of T' literally states --
+  the latter only if T' as a whole is a well-formed file (every record complete);
+* element symbols and mol2 bond types are read with the oracle's own frozen tables, never with the library;
+* a slice of the damaged texts (and all texts with a byte no UTF-8 text contains) is written to a file and read
+  through the loaders that open the file themselves (Molecule / Structure / CartesianGeometry load_*(path),
+  molli.load / load_all, ConformerEnsemble.load_*);
 * ``LineReader.__next__`` may be called at most 2*lines+16 times per parse (logical termination bound);
   a SIGALRM watchdog is only an inconclusive backstop;
 * icontract contracts on ``read_mol2`` / ``read_xyz`` assert block counts == header counts for every
@@ -19,6 +24,7 @@ judged by an oracle that does not use the parsers under test:
 from __future__ import annotations
 
 import json
+import os
 
 ID = "C10"
 LEVEL = "fault_enumeration"
@@ -28,7 +34,11 @@ RULE = ("per pristine text (bundled pentane_confs/dummy .mol2/.xyz, isornitrate+
         "files of 3-4 mutually different molecules written by molli's dumps_mol2/dumps_xyz): EVERY truncation at a line "
         "boundary, EVERY byte offset inside the last record, EVERY single line deletion and duplication, plus seeded token "
         "corruptions (digit change in a count line, removed field, added field, non-numeric coordinate, digit change / cut "
-        "inside a coordinate); no line swaps. non-trivial = the damage raises or changes the parse; distinct by "
+        "inside a coordinate, a number of an index column -- atom id, bond id, bond endpoint, UNITY entry index / attribute "
+        "count -- changed into another number incl. 0 / negative / too large / a neighbour's, garbled UNITY attribute "
+        "value or name) and seeded single-byte damage with a byte that is not UTF-8 (files only); generated texts include "
+        "records with UNITY_ATOM_ATTR / UNITY_BOND_ATTR blocks before and behind the BOND block and as the last block; "
+        "no line swaps. non-trivial = the damage raises or changes the parse; distinct by "
         "(format, damage kind, role of the damaged line, outcome class)")
 ASSUMPTIONS = [
     "an exception of any Exception subclass counts as rejection",
@@ -37,8 +47,17 @@ ASSUMPTIONS = [
     "a record all of whose significant lines are those of a pristine record must parse to exactly the pristine molecule "
     "(snapshot equality, no tolerance)",
     "damage inside a token that leaves a structurally complete record is accepted with the value the damaged text "
-    "literally states (Python int()/float() of the token; element/bond type read by Atom.set_mol2_type / "
-    "Bond.set_mol2_type / Element.get, which are trusted)",
+    "literally states (Python int()/float() of the token; element symbol and bond type looked up in the frozen tables of "
+    "vmon/models/damagedinput.py, element symbols case-insensitively; only the meaning of a mol2 atom type SUFFIX -- "
+    "hybridisation / geometry -- is taken from Atom.set_mol2_type), and only if every record of the damaged text is "
+    "complete (a loader that returns everything has read the whole text); for the loaders that return the first record "
+    "only, the rest of the text is not considered",
+    "the atom id and bond id columns carry no information the molecule keeps: a changed id must give the pristine "
+    "molecule or an exception; bond endpoints and UNITY entry indices must lie in 1..count of their own record",
+    "a ConformerEnsemble is judged conformer by conformer: record k complete, its coordinates / atomic charges those "
+    "record k states, atoms and bonds those record 0 states (only for texts whose pristine ensemble this reading accepts)",
+    "a file is judged by the text a reader sees that opens it the way the loaders do (default encoding, undecodable "
+    "bytes kept as lone surrogates): a byte that is no text makes its token unreadable",
     "a returned molecule equal to the pristine molecule with the declared counts is accepted even if the damaged record "
     "has surplus or missing lines (the statement only forbids partial / wrong molecules)",
     "silently ignoring a damaged tail after complete molecules is not counted as a violation (every returned molecule is "
@@ -52,13 +71,29 @@ LEVEL_TEXT = ("Held on the executions produced: for each text every line-boundar
               "the real loaders; each outcome was an exception or a list of molecules that an independent literal reading "
               "of the damaged text confirms complete and correct, within the LineReader step bound. Not a proof: texts and "
               "token corruptions are a finite seeded sample; single damages only.")
-LEVEL_NOTE = ("Trusted: vmon/models/damagedinput.py (literal reading, damage generator), vmon/snap.py, Atom/Bond.set_mol2_type, "
-              "Element.get. A parser that does not use LineReader leaves the termination monitor at 0 => inconclusive.")
+LEVEL_NOTE = ("Trusted: vmon/models/damagedinput.py (literal reading, frozen element / bond type tables, damage generator), "
+              "vmon/snap.py, Atom.set_mol2_type for the suffix of an atom type only. Mechanisms in KNOWN_ON_UNCHANGED_TREE "
+              "are evaluated and counted but not reported (tools/findings/C10-ext.json). A parser that does not use LineReader leaves the termination monitor at 0 => inconclusive.")
+
+
+# Mechanisms by which the UNCHANGED library breaks the property (written up in tools/findings/C10-ext.json with a proposed
+# fix).  They are evaluated and counted ("known-on-unchanged-tree:<key>") but not reported.  REMOVE the entries once the
+# library is repaired: the check then reports them like everything else.
+KNOWN_ON_UNCHANGED_TREE = {
+    # `res.atoms[b.a1 - 1]`, `parsed_atoms[atom - 1]`, `parsed_bonds[bond - 1]`: 0 and negative numbers are taken as
+    # Python's from-the-end indices, so a bond to "atom 0" joins the last atom, a charge for "atom -3" lands on atom n-3
+    "C10:mol2:incomplete-record-returned:bond-endpoint-below-one",
+    "C10:mol2:incomplete-record-returned:unity_atom_attr-index-below-one",
+    "C10:mol2:incomplete-record-returned:unity_bond_attr-index-below-one",
+}
+if os.environ.get("VERIF_C10_REPORT_KNOWN"):       # to try a repaired library before the set above is removed
+    KNOWN_ON_UNCHANGED_TREE = set()
 
 
 def REQUIRED(tier):
     big = tier != "quick"
     f = 8 if big else 1
+    g = 3 if big else 1
     return {
         "pristine.texts": 45 if big else 12,
         "parse.mol2": 4000 * f, "parse.xyz": 1500 * f,
@@ -76,6 +111,28 @@ def REQUIRED(tier):
         "reach.mol2-rejected.atom-lines-more-than-declared": 50, "reach.mol2-rejected.bond-lines-more-than-declared": 50,
         "reach.mol2-rejected.header-lines-missing": 10, "reach.mol2-rejected.header-counts-unreadable": 20,
         "reach.mol2-rejected.atom-line-coordinate-not-numeric": 20,
+        # ---- added after the gap review
+        "pristine.texts.unity-block-behind-bond-block": 2 * g, "pristine.texts.unity-bond-attr": 2 * g,
+        "reach.mol2.unity-bond-attr-text": 4000 * g,
+        "damage.cut-leaves-unity-block-last.UNITY_ATOM_ATTR": 140 * g, "damage.cut-leaves-unity-block-last.UNITY_BOND_ATTR": 75 * g,
+        "damage.cut-leaves-unity-block-last.behind-bond-block": 170 * g,
+        "reach.mol2-rejected.unity_atom_attr-entry-lines-fewer-than-declared": 40 * g,
+        "reach.mol2-rejected.unity_bond_attr-entry-lines-fewer-than-declared": 40 * g,
+        "damage.column.atom-id": 190 * g, "damage.column.bond-id": 75 * g, "damage.column.bond-endpoint": 300 * g,
+        "damage.column.unity-atom-index": 30 * g, "damage.column.unity-bond-index": 20 * g,
+        "damage.column.unity-atom-attr-count": 10 * g, "damage.column.unity-bond-attr-count": 5 * g,
+        "damage.column.unity-atom-value": 95 * g, "damage.column.unity-bond-value": 50 * g,
+        "damage.below-one.bond-endpoint": 80 * g, "damage.below-one.unity-index": 12 * g,
+        "reach.mol2-rejected.bond-endpoint-above-atom-count": 95 * g,
+        "reach.mol2-rejected.unity_atom_attr-index-above-count": 7 * g, "reach.mol2-rejected.unity_bond_attr-index-above-count": 5 * g,
+        "damage.byte": 500 * g, "parse.path": 3400 * g, "parse.path.byte": 1000 * g, "reach.path-error.UnicodeDecodeError": 1000 * g,
+        "entry.Molecule.load_all_mol2(path)": 500 * g, "entry.Structure.load_all_mol2(Path)": 500 * g,
+        "entry.Molecule.load_mol2(path)": 500 * g, "entry.molli.load_all(path)": 600 * g, "entry.molli.load(path)": 600 * g,
+        "entry.Molecule.load_all_xyz(path)": 130 * g, "entry.CartesianGeometry.load_all_xyz(Path)": 140 * g,
+        "entry.Structure.load_xyz(path)": 140 * g,
+        "entry.ConformerEnsemble.load_mol2(path)": 85 * g, "entry.ConformerEnsemble.load_xyz(path)": 60 * g,
+        "outcome.ensemble": 7 * g, "oracle.conformer-checked": 30 * g,
+        "oracle.altered-record.rest-of-text-complete": 900 * g,
     }
 
 
@@ -95,19 +152,21 @@ def plan(tier, seed):
         texts.append(["gen", "xyz", i])
     texts.append(["gen-short-header", "mol2", 0])
     texts.append(["gen-foreign-blocks", "mol2", 0])
+    texts += [["gen-unity", "mol2", i] for i in range(4 if quick else 12)]
     if not quick:
         texts += [["gen-short-header", "mol2", i] for i in range(1, 4)]
         texts += [["gen-foreign-blocks", "mol2", i] for i in range(1, 4)]
         texts += [["concat", "mol2", "dmf.mol2+dummy.mol2+isornitrate.mol2+propyne.mol2"],
                   ["concat", "mol2", "benzene.mol2+isornitrate.mol2"]]
-    n_tok = 400 if quick else 4000
+    n_tok = 520 if quick else 5200
+    n_byte = 60 if quick else 400
     specs = []
     for t in texts:
         parts = PARTS.get(t[2], 1) if isinstance(t[2], str) else 1
         if not quick:
             parts *= 4
         for p in range(parts):
-            specs.append({"text": t, "part": p, "parts": parts, "n_tok": n_tok})
+            specs.append({"text": t, "part": p, "parts": parts, "n_tok": n_tok, "n_byte": n_byte})
     return specs
 
 
@@ -135,7 +194,7 @@ def build_text(tid, ctx):
     rng = ctx.rng("text", kind, fmt, which)
     elements = [ml.Element[s] for s in ("C", "H", "N", "O", "S", "Cl", "Br", "Si", "P", "F", "Na", "Fe")]
     n_mol = rng.choice([3, 3, 4])
-    sizes = rng.sample([1, 2, 3, 4, 5, 6, 7, 8, 9, 11, 13], n_mol)
+    sizes = rng.sample([1, 2, 3, 4, 5, 6, 7, 8, 9, 11, 13] if kind != "gen-unity" else [3, 4, 5, 6, 7, 8, 9, 11, 13], n_mol)
     if rng.random() < 0.5:
         sizes.sort(reverse=rng.random() < 0.5)
     mols = []
@@ -165,6 +224,30 @@ def build_text(tid, ctx):
                 k += 1
             lines.append(ln)
         text = "".join(lines)
+    if kind == "gen-unity":
+        # the same records as a program that stores formal charges / per-atom and per-bond properties writes them:
+        # UNITY_ATOM_ATTR and UNITY_BOND_ATTR blocks ("index n_attr" + n_attr "name value" lines per entry) in front of
+        # the BOND block, behind it, in both orders.  The last record ends with such a block; the unknown block that
+        # closes the text makes every truncation in or right behind that block a text whose LAST block is a UNITY block
+        # (read_mol2 cannot read a pristine text that ends inside one).  No comment lines: the UNITY loops do not skip them.
+        out = []
+        for k, m in enumerate(mols):
+            L = [ln for ln in m.dumps_mol2().splitlines(keepends=True) if not ln.startswith("#")]
+            ib = next(i for i, ln in enumerate(L) if ln.startswith("@<TRIPOS>BOND"))
+            ab = _unity_block(rng, "ATOM", m.n_atoms)
+            bb = _unity_block(rng, "BOND", m.n_bonds)
+            layout = (k + int(which)) % 4
+            if layout == 0:
+                L = L[:ib] + ab + L[ib:] + bb
+            elif layout == 1:
+                L = L + ab
+            elif layout == 2:
+                L = L + bb + ab
+            else:
+                L = L + ab + bb
+            out += L
+        out += ["@<TRIPOS>COMMENT\n", "end of the data\n"]
+        text = "".join(out)
     if kind == "gen-short-header":
         # the same records with the two-field counts line "n_atoms n_bonds" (legal TRIPOS) and no comment lines
         lines = []
@@ -177,6 +260,27 @@ def build_text(tid, ctx):
             lines.append(ln)
         text = "".join(lines)
     return text
+
+
+def _unity_block(rng, what, n):
+    """lines of one UNITY_<what>_ATTR block with 1-3 entries for a record of n atoms / bonds ([] if n == 0)"""
+    if n <= 0:
+        return []
+    lines = [f"@<TRIPOS>UNITY_{what}_ATTR\n"]
+    for idx in sorted(rng.sample(range(1, n + 1), min(n, rng.randint(1, 3)))):
+        if what == "ATOM":
+            attrs = [("charge", str(rng.choice([-2, -1, 1, 1, 2, 0])))]
+            if rng.random() < 0.5:
+                attrs.append(rng.choice([("spin", "0.5"), ("note", "x7"), ("mass", "13.003")]))
+            if rng.random() < 0.25:
+                attrs.reverse()
+        else:
+            attrs = [("stereo", rng.choice("EZ")), ("wiberg", f"{rng.uniform(0.5, 3.0):.2f}")]
+            if rng.random() < 0.4:
+                attrs = attrs[rng.randrange(2):][:1]
+        lines.append(f"{idx} {len(attrs)}\n")
+        lines += [f"{k} {v}\n" for k, v in attrs]
+    return lines
 
 
 # ------------------------------------------------------------------------------------------------
@@ -332,36 +436,68 @@ def _block_brief(fmt, block):
 # entry points under observation
 
 def entries(fmt):
+    """(name, class of the result, returns every record?, callable, mode).  mode 'str': the callable takes the text;
+    'path': it takes the name of a file holding the text (the loaders open it themselves); 'ens-path': as 'path', the
+    result is a ConformerEnsemble (judged by judge_ensemble).  The first entry is the primary one."""
     import io
+    from pathlib import Path
     import molli as ml
 
     if fmt == "mol2":
         return [
-            ("Molecule.loads_all_mol2", ml.Molecule, True, lambda t: ml.Molecule.loads_all_mol2(t)),
-            ("Structure.loads_all_mol2", ml.Structure, True, lambda t: ml.Structure.loads_all_mol2(t)),
-            ("Molecule.load_all_mol2(stream)", ml.Molecule, True, lambda t: ml.Molecule.load_all_mol2(io.StringIO(t))),
-            ("Molecule.loads_mol2", ml.Molecule, False, lambda t: [ml.Molecule.loads_mol2(t)]),
-            ("Structure.yield_from_mol2", ml.Structure, True, lambda t: list(ml.Structure.yield_from_mol2(io.StringIO(t)))),
+            ("Molecule.loads_all_mol2", ml.Molecule, True, lambda t: ml.Molecule.loads_all_mol2(t), "str"),
+            ("Structure.loads_all_mol2", ml.Structure, True, lambda t: ml.Structure.loads_all_mol2(t), "str"),
+            ("Molecule.load_all_mol2(stream)", ml.Molecule, True, lambda t: ml.Molecule.load_all_mol2(io.StringIO(t)), "str"),
+            ("Molecule.loads_mol2", ml.Molecule, False, lambda t: [ml.Molecule.loads_mol2(t)], "str"),
+            ("Structure.yield_from_mol2", ml.Structure, True, lambda t: list(ml.Structure.yield_from_mol2(io.StringIO(t))),
+             "str"),
+            ("Molecule.load_all_mol2(path)", ml.Molecule, True, lambda p: ml.Molecule.load_all_mol2(p), "path"),
+            ("Structure.load_all_mol2(Path)", ml.Structure, True, lambda p: ml.Structure.load_all_mol2(Path(p)), "path"),
+            ("Molecule.load_mol2(path)", ml.Molecule, False, lambda p: [ml.Molecule.load_mol2(p)], "path"),
+            ("molli.load_all(path)", ml.Molecule, True, lambda p: ml.load_all(p), "path"),
+            ("molli.load(path)", ml.Molecule, False, lambda p: [ml.load(Path(p))], "path"),
+            ("ConformerEnsemble.load_mol2(path)", ml.ConformerEnsemble, True, lambda p: ml.ConformerEnsemble.load_mol2(p),
+             "ens-path"),
         ]
     return [
-        ("Molecule.loads_all_xyz", ml.Molecule, True, lambda t: ml.Molecule.loads_all_xyz(t)),
-        ("CartesianGeometry.loads_all_xyz", ml.CartesianGeometry, True, lambda t: ml.CartesianGeometry.loads_all_xyz(t)),
-        ("Molecule.load_all_xyz(stream)", ml.Molecule, True, lambda t: ml.Molecule.load_all_xyz(io.StringIO(t))),
-        ("Structure.loads_xyz", ml.Structure, False, lambda t: [ml.Structure.loads_xyz(t)]),
+        ("Molecule.loads_all_xyz", ml.Molecule, True, lambda t: ml.Molecule.loads_all_xyz(t), "str"),
+        ("CartesianGeometry.loads_all_xyz", ml.CartesianGeometry, True, lambda t: ml.CartesianGeometry.loads_all_xyz(t), "str"),
+        ("Molecule.load_all_xyz(stream)", ml.Molecule, True, lambda t: ml.Molecule.load_all_xyz(io.StringIO(t)), "str"),
+        ("Structure.loads_xyz", ml.Structure, False, lambda t: [ml.Structure.loads_xyz(t)], "str"),
         ("CartesianGeometry.yield_from_xyz", ml.CartesianGeometry, True,
-         lambda t: list(ml.CartesianGeometry.yield_from_xyz(io.StringIO(t)))),
+         lambda t: list(ml.CartesianGeometry.yield_from_xyz(io.StringIO(t))), "str"),
+        ("Molecule.load_all_xyz(path)", ml.Molecule, True, lambda p: ml.Molecule.load_all_xyz(p), "path"),
+        ("CartesianGeometry.load_all_xyz(Path)", ml.CartesianGeometry, True,
+         lambda p: ml.CartesianGeometry.load_all_xyz(Path(p)), "path"),
+        ("Structure.load_xyz(path)", ml.Structure, False, lambda p: [ml.Structure.load_xyz(p)], "path"),
+        ("molli.load_all(path)", ml.Molecule, True, lambda p: ml.load_all(Path(p)), "path"),
+        ("molli.load(path)", ml.Molecule, False, lambda p: [ml.load(p)], "path"),
+        ("ConformerEnsemble.load_xyz(path)", ml.ConformerEnsemble, True, lambda p: ml.ConformerEnsemble.load_xyz(p),
+         "ens-path"),
     ]
+
+
+def write_damaged_file(path, text):
+    """the damaged text as a file (bytes: lone surrogates of a 'surrogateescape' decoding become the bytes they stand
+    for) -> the text a faithful reader sees when it opens that file the way the loaders do (platform default encoding,
+    default newline handling; what cannot be decoded stays visible as a lone surrogate)"""
+    with open(path, "wb") as f:
+        f.write(text.encode("utf-8", "surrogateescape"))
+    with open(path, "rt", errors="surrogateescape") as f:
+        return f.read()
 
 
 # ------------------------------------------------------------------------------------------------
 # literal expectation -> comparison with a snapshot
 
-def literal_diff(rec, s, has_charges):
+def literal_diff(rec, s, has_charges, check_name=True):
     """[] if snapshot `s` states exactly what the structurally complete record `rec` literally states;
-    otherwise a list of (field, expected, observed).  Raises _Uninterpretable for a token the trusted
-    type readers reject."""
+    otherwise a list of (field, expected, observed).  Raises _Uninterpretable for a token that names no element / no
+    bond type according to the oracle's own frozen tables (vmon.models.damagedinput), or that int() / float() /
+    the atom type suffix reader reject."""
     import numpy as np
     import molli as ml
+    from vmon.models import damagedinput as D
 
     out = []
 
@@ -377,12 +513,11 @@ def literal_diff(rec, s, has_charges):
     if rec["fmt"] == "xyz":
         for i, a in enumerate(rec["atoms"]):
             if a["sym"] == "*":
-                el, at = int(ml.Element.Unknown), int(ml.AtomType.Dummy)
+                el, at = 0, int(ml.AtomType.Dummy)
             else:
-                try:
-                    el, at = int(ml.Element.get(a["sym"])), int(ml.AtomType.Regular)
-                except Exception as e:  # noqa
-                    raise _Uninterpretable(f"element symbol {a['sym']!r}: {e!r}")
+                el, at = D.element_number(a["sym"]), int(ml.AtomType.Regular)
+                if el is None:
+                    raise _Uninterpretable(f"element symbol {a['sym']!r} names no element")
             if atoms[i]["element"] != el:
                 ne(f"atoms[{i}].element", el, atoms[i]["element"])
             if atoms[i]["atype"] != at:
@@ -391,16 +526,19 @@ def literal_diff(rec, s, has_charges):
                 ne(f"coords[{i}]", a["xyz"], coords[i].tolist())
         return out
     # ---- mol2
-    if rec["name"] and s.get("name") != rec["name"]:
+    if check_name and rec["name"] and s.get("name") != rec["name"]:
         ne("name", rec["name"], s.get("name"))
     for i, a in enumerate(rec["atoms"]):
+        stated = D.mol2_atom_type_element(a["type"])
+        if stated is None:
+            raise _Uninterpretable(f"atom type {a['type']!r}: the element part names no element")
         ref = ml.Atom()
         try:
-            ref.set_mol2_type(a["type"])
+            ref.set_mol2_type(a["type"])        # trusted for the meaning of the suffix only (hybridisation, geometry)
         except Exception as e:  # noqa
             raise _Uninterpretable(f"atom type {a['type']!r}: {e!r}")
         got = atoms[i]
-        for f, v in (("element", int(ref.element)), ("atype", int(ref.atype)), ("geom", int(ref.geom)),
+        for f, v in (("element", stated[0]), ("atype", int(ref.atype)), ("geom", int(ref.geom)),
                      ("label", a["label"])):
             if got[f] != v:
                 ne(f"atoms[{i}].{f}", v, got[f])
@@ -434,15 +572,12 @@ def literal_diff(rec, s, has_charges):
     if len(bonds) != len(rec["bonds"]):
         ne("n_bonds", len(rec["bonds"]), len(bonds))
         return out
-    a0, a1 = ml.Atom(), ml.Atom()
     for i, b in enumerate(rec["bonds"]):
-        ref = ml.Bond(a0, a1)
-        try:
-            ref.set_mol2_type(b["type"])
-        except Exception as e:  # noqa
-            raise _Uninterpretable(f"bond type {b['type']!r}: {e!r}")
+        tname = D.MOL2_BOND_TYPE_NAMES.get(b["type"])
+        if tname is None:
+            raise _Uninterpretable(f"bond type {b['type']!r} is not a mol2 bond type")
         got = bonds[i]
-        for f, v in (("a1", b["a1"]), ("a2", b["a2"]), ("btype", int(ref.btype))):
+        for f, v in (("a1", b["a1"]), ("a2", b["a2"]), ("btype", int(ml.BondType[tname]))):
             if got[f] != v:
                 ne(f"bonds[{i}].{f}", v, got[f])
         battr = dict(rec["bond_attr"].get(i, {}))
@@ -501,19 +636,43 @@ def run_chunk(spec, ctx):
     classes = D.line_classes(fmt, lines)
     recs_T = D.records(fmt, lines)
     start_to_j = {r["start"]: j for j, r in enumerate(recs_T)}
-    if "sect-UNITY_ATOM_ATTR" in classes:
-        unity_text = True
-    else:
-        unity_text = False
+    unity_text = "sect-UNITY_ATOM_ATTR" in classes
+    unity_bond_text = "sect-UNITY_BOND_ATTR" in classes
+    # UNITY blocks that stand behind the BOND block of their record / that are the last data block of the text
+    order = [c for c in classes if c.startswith("tag-")]
+    unity_after_bond = any(order[i].startswith("tag-UNITY_") and "tag-BOND" in order[max(0, i - 2):i]
+                           for i in range(len(order)))
 
     mon = Monitors(ctx)
     mon.install()
     ents = entries(fmt)
+    scratch = str(ctx.tmp / f"c10-damaged.{fmt}")          # the suffix lets molli.load / load_all pick the parser
+
+    def run_entry(e, text, n_lines):
+        """-> (outcome, text the entry point was given / read)"""
+        name, cls, is_all, fn, mode = e
+        if mode == "str":
+            return mon.run(fn, text, n_lines), text
+        seen = write_damaged_file(scratch, text)
+        return mon.run(lambda _t: fn(scratch), None, n_lines), seen
 
     # ---- pristine parses, one per entry point
     pristine = {}
-    for name, cls, is_all, fn in ents:
-        out = mon.run(fn, T, len(lines))
+    for e in ents:
+        name, cls, is_all, fn, mode = e
+        out, seen = run_entry(e, T, len(lines))
+        if mode != "str" and seen != T:
+            ctx.inconclusive.append(f"the pristine text {tname} read back from a file differs from what was written")
+            pristine[name] = None
+            continue
+        if mode == "ens-path":
+            # an ensemble exists only for records that are conformers of one molecule; it is judged against the literal
+            # reading alone, and only if that reading accepts the ensemble of the pristine text
+            ok = out[0] == "list" and judge_ensemble(ctx, D, fmt, name, out, mon, recs_T, recs_T, start_to_j,
+                                                     list(range(len(lines))), lines, count=False)[1] == []
+            pristine[name] = "ensemble" if ok else None
+            ctx.count("pristine.ensemble-entry-applicable" if ok else "pristine.ensemble-entry-not-applicable")
+            continue
         if out[0] != "list":
             if out[0] == "budget":
                 ctx.violation(f"termination:{fmt}:next-calls-exceed-bound", case=["none"], text=tname, entry=name,
@@ -526,14 +685,27 @@ def run_chunk(spec, ctx):
         if name == ents[0][0] and spec["part"] == 0:
             ctx.count("pristine.texts")
             ctx.count(f"pristine.molecules.{fmt}", len(out[1]))
+            if unity_after_bond:
+                ctx.count("pristine.texts.unity-block-behind-bond-block")
+            if unity_bond_text:
+                ctx.count("pristine.texts.unity-bond-attr")
     if pristine[ents[0][0]] is None:
         return
     if len(pristine[ents[0][0]]) != len(recs_T) or not all(r["ok"] for r in recs_T):
         ctx.inconclusive.append(f"literal reading of pristine {tname} disagrees with the loader on the number of records: "
                                 f"{len(recs_T)} vs {len(pristine[ents[0][0]])}, ok={[r['ok'] for r in recs_T]}")
         return
+    # the path entry points must give the primary entry's molecules for the pristine text
+    for name, cls, is_all, fn, mode in ents:
+        if mode == "path" and cls is ents[0][1] and pristine.get(name) is not None:
+            ref = pristine[ents[0][0]] if is_all else pristine[ents[0][0]][:1]
+            if diff(ref, pristine[name]):
+                ctx.violation(f"{fmt}:file-entry-point-reads-pristine-text-differently", case=["none"], text=tname, entry=name,
+                              diff=[list(map(_j, x)) for x in diff(ref, pristine[name])[:3]])
+    str_ents = [e for e in ents if e[4] == "str"]
+    path_ents = [e for e in ents if e[4] != "str" and pristine.get(e[0]) is not None]
 
-    cases = D.enumerate_cases(fmt, lines, spec["n_tok"])
+    cases = D.enumerate_cases(fmt, lines, spec["n_tok"], spec.get("n_byte", 0))
     n_watchdog = 0
     for ci, case in enumerate(cases):
         if ci % spec["parts"] != spec["part"]:
@@ -551,29 +723,66 @@ def run_chunk(spec, ctx):
 
         todo = [ents[0]]
         if ci % 4 == 0:
-            todo.append(ents[1 + (ci // 4) % (len(ents) - 1)])
+            todo.append(str_ents[1 + (ci // 4) % (len(str_ents) - 1)])
+        if path_ents and (kind == "byte" or ci % 5 == 2):
+            todo.append(path_ents[(ci // 5) % len(path_ents)])
+            if kind == "byte":
+                todo.append(path_ents[(ci // 5 + 1 + ci % 3) % len(path_ents)])
         first = True
-        for name, cls, is_all, fn in todo:
+        for e in todo:
+            name, cls, is_all, fn, mode = e
             M = pristine.get(name)
             if M is None:
                 continue
-            out = mon.run(fn, text2, len(lines2))
+            out, seen = run_entry(e, text2, len(lines2))
+            e_lines2, e_recs2 = lines2, recs2
+            if seen != text2:
+                # the platform's default decoding shows the file differently: judge what the loader was shown
+                e_lines2 = D.split_lines(seen)
+                if len(e_lines2) != len(lines2):
+                    ctx.count("path.file-read-back-with-other-line-boundaries")
+                    continue
+                e_recs2 = D.records(fmt, e_lines2)
             ctx.count(f"parse.{fmt}")
             ctx.count(f"entry.{name}")
+            if mode != "str":
+                ctx.count("parse.path")
+                ctx.count(f"parse.path.{kind}")
             if mon.next_calls:
                 ctx.count("monitor.next-calls.parses")
                 ctx.count("monitor.next-calls.total", mon.next_calls)
             ctx.count("reach.put_back", mon.put_backs)
             if unity_text:
                 ctx.count("reach.mol2.unity-attr-text")
-            oclass, viols = judge(ctx, D, snap, diff, fmt, name, cls, is_all, out, mon, recs2, recs_T, start_to_j, prov, M,
-                                  lines2)
+            if unity_bond_text:
+                ctx.count("reach.mol2.unity-bond-attr-text")
+            if mode == "ens-path":
+                oclass, viols = judge_ensemble(ctx, D, fmt, name, out, mon, e_recs2, recs_T, start_to_j, prov, e_lines2)
+            else:
+                oclass, viols = judge(ctx, D, snap, diff, fmt, name, cls, is_all, out, mon, e_recs2, recs_T, start_to_j, prov, M,
+                                      e_lines2)
+            if mode != "str" and out[0] == "exception":
+                ctx.count(f"reach.path-error.{type(out[1]).__name__}")
             if first:
                 first = False
                 ctx.count(f"damage.{kind}")
                 ctx.count(f"damage-kind.{info['kind']}")
+                if info.get("column"):
+                    ctx.count(f"damage.column.{info['column']}")
+                    ctx.count(f"damage.column.{info['column']}.{info['how']}")
+                    if info["how"] in ("zero", "negative") and info["column"].endswith(("-endpoint", "-index")):
+                        ctx.count("damage.below-one." + ("bond-endpoint" if info["column"] == "bond-endpoint" else "unity-index"))
+                if kind in ("lt", "bt") and lines2:
+                    # where the text ends: inside / right behind a UNITY block that is then the last block of the text
+                    last_tag = next((c for c in reversed(classes[:len(lines2)]) if c.startswith("tag-")), "")
+                    if last_tag.startswith("tag-UNITY_"):
+                        ctx.count("damage.cut-leaves-unity-block-last")
+                        ctx.count(f"damage.cut-leaves-unity-block-last.{last_tag[4:]}")
+                        if "tag-BOND" in classes[recs2[-1]["start"] if recs2 else 0:len(lines2)]:
+                            ctx.count("damage.cut-leaves-unity-block-last.behind-bond-block")
                 changed = oclass != "list-same-as-pristine"
-                ctx.case(case, dkey=(fmt, info["kind"], info.get("class"), oclass), nontrivial=changed and kind != "none",
+                ctx.case(case, dkey=(fmt, info["kind"], info.get("class"), info.get("column"), oclass),
+                         nontrivial=changed and kind != "none",
                          sample={"text": tname, "damage": _small(info), "outcome": oclass})
             if out[0] == "watchdog":
                 n_watchdog += 1
@@ -581,6 +790,9 @@ def run_chunk(spec, ctx):
             if viols:
                 ctx.count("oracle.violating-outcomes")
             for key, detail in viols:
+                if f"{ID}:{key}" in KNOWN_ON_UNCHANGED_TREE:
+                    ctx.count("known-on-unchanged-tree:" + key)
+                    continue
                 ctx.violation(key, case=case, text=tname, entry=name, damage=_small(info), **detail)
         if n_watchdog >= 3:
             ctx.inconclusive.append("three watchdog expiries in one chunk: chunk abandoned")
@@ -593,29 +805,126 @@ def _small(info):
     d = dict(info)
     for k in ("old", "new", "last_line"):
         if k in d and isinstance(d[k], str):
-            d[k] = d[k][:100]
+            d[k] = d[k][:100].encode("ascii", "backslashreplace").decode()
     return d
+
+
+def _judge_no_result(ctx, fmt, out, mon, recs2, lines2, viols, count=True):
+    """outcome class if the parse did not return (watchdog / step bound / exception), else None"""
+    tag, val = out
+    if tag == "watchdog":
+        return "watchdog"
+    if tag == "budget":
+        viols.append((f"termination:{fmt}:next-calls-exceed-bound",
+                      {"calls": mon.next_calls, "bound": mon.bound, "lines": len(lines2)}))
+        return "next-calls-exceed-bound"
+    if tag == "exception":
+        ename = type(val).__name__
+        if count:
+            ctx.count("outcome.exception")
+            ctx.count(f"reach.{fmt}-error.{ename}")
+            why = next((r["why"] for r in recs2 if not r["ok"]), "no-incomplete-record")
+            ctx.count(f"reach.{fmt}-rejected.{why}")
+            if mon.block_failures:
+                ctx.count("contract.block-mismatch-rejected-downstream")
+        return f"exception:{ename}"
+    return None
+
+
+def _rest_incomplete(recs2):
+    """reason of the first record of the damaged text that is not complete, None if the whole text is well-formed"""
+    return next((r["why"] or "incomplete" for r in recs2 if not r["ok"]), None)
+
+
+def judge_ensemble(ctx, D, fmt, entry, out, mon, recs2, recs_T, start_to_j, prov, lines2, count=True):
+    """a ConformerEnsemble came back (or not): conformer k must be record k of the damaged text -- its coordinates (and
+    atomic charges) are those record k literally states, the shared atoms / bonds those of record 0 -- and every record
+    must be complete.  -> (outcome class, [(violation key, detail)])"""
+    import numpy as np
+    from vmon.snap import snap
+
+    viols = []
+    head = _judge_no_result(ctx, fmt, out, mon, recs2, lines2, viols, count)
+    if head is not None:
+        return head, viols
+    ens = out[1]
+    if count:
+        ctx.count("outcome.ensemble")
+    try:
+        s = snap(ens)
+        coords = np.asarray(s["coords"], dtype=float)
+        n_conf = int(ens.n_conformers)
+        if coords.ndim != 3 or coords.shape[0] != n_conf:
+            raise ValueError(f"coords shape {coords.shape} for {n_conf} conformers")
+        charges = np.asarray(s.get("atomic_charges", np.zeros(coords.shape[:2])), dtype=float).reshape(n_conf, -1)
+    except Exception as e:  # noqa
+        viols.append((f"{fmt}:ensemble-result-not-readable", {"error": repr(e)[:200]}))
+        return "list-violating", viols
+    rest = _rest_incomplete(recs2)
+    n_atoms = len(s["atoms"])
+    n_bonds = len(s.get("bonds", []))
+    for k in range(n_conf):
+        if count:
+            ctx.count("oracle.conformer-checked")
+        if k >= len(recs2):
+            viols.append((f"{fmt}:more-molecules-than-records-in-text", {"returned": n_conf, "records": len(recs2)}))
+            break
+        rec = recs2[k]
+        brief = {"conformer": k, "returned": {"n_conformers": n_conf, "n_atoms": n_atoms, "n_bonds": n_bonds},
+                 "record": {"lines": [rec["start"], rec["end"]], "declares": [rec["na"], rec["nb"]], "complete": rec["ok"],
+                            "why": rec["why"]}}
+        if rec["na"] is None:
+            viols.append((f"{fmt}:molecule-returned-for-unreadable-header:{rec['why']}", brief))
+            continue
+        if n_atoms != rec["na"]:
+            viols.append((f"{fmt}:count-differs-from-header:atoms", brief))
+            continue
+        if fmt == "mol2" and k == 0 and n_bonds != (rec["nb"] or 0):
+            viols.append((f"{fmt}:count-differs-from-header:bonds", brief))
+            continue
+        if not rec["ok"]:
+            viols.append((f"{fmt}:incomplete-record-returned:{rec['why']}", brief))
+            continue
+        src = prov[rec["start"]] if rec["start"] < len(prov) else None
+        j = start_to_j.get(src) if src is not None else None
+        unchanged = j is not None and rec.get("sig") == recs_T[j].get("sig")
+        if not unchanged and rest is not None:
+            viols.append((f"{fmt}:altered-record-returned-although-rest-of-text-incomplete:{rest}", brief))
+            continue
+        # record 0's symbols, labels, bonds and attributes with record k's numbers
+        r0 = recs2[0]
+        if not r0["ok"] or r0["na"] != rec["na"]:
+            continue        # reported at k == 0 / by the count test of another conformer
+        pseudo = dict(r0)
+        if fmt == "xyz":
+            pseudo["atoms"] = [dict(a0, xyz=ak["xyz"]) for a0, ak in zip(r0["atoms"], rec["atoms"])]
+        else:
+            pseudo["atoms"] = [dict(a0, xyz=ak["xyz"], charge_tok=ak["charge_tok"]) for a0, ak in zip(r0["atoms"], rec["atoms"])]
+            pseudo["chrg"] = rec["chrg"]
+        sk = {"atoms": s["atoms"], "bonds": s.get("bonds", []), "coords": coords[k], "atomic_charges": charges[k]}
+        try:
+            ld = literal_diff(pseudo, sk, fmt == "mol2", check_name=False)
+        except _Uninterpretable as e:
+            viols.append((f"{fmt}:uninterpretable-token-accepted", dict(brief, token=str(e)[:200])))
+            continue
+        if ld:
+            viols.append((f"{fmt}:content-differs-from-text:{_field_of(ld[0][0])}",
+                          dict(brief, expected_vs_observed=[list(x) for x in ld[:4]])))
+        elif count:
+            ctx.count("oracle.accepted-conformer")
+    if mon.block_failures and not viols:
+        viols.append((f"contract:{fmt}:block-counts-differ-from-header-in-returned-result",
+                      {"blocks": mon.block_failures[:3], "returned": n_conf}))
+    return ("list-violating" if viols else "ensemble-accepted"), viols
 
 
 def judge(ctx, D, snap, diff, fmt, entry, cls, is_all, out, mon, recs2, recs_T, start_to_j, prov, M, lines2):
     """-> (outcome class, [(violation key, detail)])"""
     viols = []
     tag, val = out
-    if tag == "watchdog":
-        return "watchdog", viols
-    if tag == "budget":
-        viols.append((f"termination:{fmt}:next-calls-exceed-bound",
-                      {"calls": mon.next_calls, "bound": mon.bound, "lines": len(lines2)}))
-        return "next-calls-exceed-bound", viols
-    if tag == "exception":
-        ctx.count("outcome.exception")
-        ename = type(val).__name__
-        ctx.count(f"reach.{fmt}-error.{ename}")
-        why = next((r["why"] for r in recs2 if not r["ok"]), "no-incomplete-record")
-        ctx.count(f"reach.{fmt}-rejected.{why}")
-        if mon.block_failures:
-            ctx.count("contract.block-mismatch-rejected-downstream")
-        return f"exception:{ename}", viols
+    head = _judge_no_result(ctx, fmt, out, mon, recs2, lines2, viols)
+    if head is not None:
+        return head, viols
 
     # ---- a list came back
     ctx.count("outcome.list")
@@ -625,6 +934,7 @@ def judge(ctx, D, snap, diff, fmt, entry, cls, is_all, out, mon, recs2, recs_T, 
         return "not-a-list", viols
     has_charges = hasattr(cls, "atomic_charges")
     snaps = [snap(x) for x in R]
+    rest = _rest_incomplete(recs2)
     n_complete = 0
     for r in recs2:
         if not r["ok"]:
@@ -698,6 +1008,13 @@ def judge(ctx, D, snap, diff, fmt, entry, cls, is_all, out, mon, recs2, recs_T, 
         if not rec["ok"]:
             viols.append((f"{fmt}:incomplete-record-returned:{rec['why']}", brief))
             continue
+        if is_all and rest is not None:
+            # an altered record may be taken at its word only if the text as a whole is a well-formed file: here the
+            # loader read on, met a record that is not complete and still returned what it had put together
+            viols.append((f"{fmt}:altered-record-returned-although-rest-of-text-incomplete:{rest}", brief))
+            continue
+        if is_all:
+            ctx.count("oracle.altered-record.rest-of-text-complete")
         try:
             ld = literal_diff(rec, s, has_charges)
         except _Uninterpretable as e:
